@@ -7,7 +7,7 @@ from .common import Result, scratch, sub_env, PY, NCPU, open_findings, write_rep
 class Ob(object):
     def __init__(self, name, fn, sig, pre=(), post='_', raises=(), cells=None, timeout=60,
                  twin_fn=None, twin_pre=(), twin_timeout=40, confirm=None, ret='bool', desc='',
-                 bug_hunting=False, per_path=None):
+                 bug_hunting=False, per_path=None, packed=None):
         self.name, self.fn, self.sig = name, fn, sig
         self.pre, self.post, self.raises = list(pre), post, list(raises)
         # cells: list of (label, [extra pre lines])
@@ -18,13 +18,50 @@ class Ob(object):
         self.twin_timeout, self.confirm, self.ret, self.desc = twin_timeout, confirm, ret, desc
         self.bug_hunting = bug_hunting   # realising inputs: confirmed is not expected, only refutations count
         self.per_path = per_path
+        # packed: [(name, radix)] or [(name, radix, 'bool')]: finite selectors carried by ONE symbolic int `sel`
+        # (mixed radix, first = most significant).  CrossHair forks a 'premature realisation' alternative per
+        # symbolic argument and exhausts all alternatives, so k selector arguments cost up to 2^k duplicate work;
+        # one packed argument avoids that.  Cells fix a prefix of the selectors: {'name': value, ...}.
+        self.packed = list(packed) if packed else None
 
     def argnames(self):
         t = ast.parse('def f(%s): pass' % self.sig).body[0]
         return [a.arg for a in t.args.args]
 
 
+def _packed_range(ob, fixed):
+    """[lo, hi) of `sel` for a cell fixing a prefix of the packed selectors"""
+    lo, span = 0, 1
+    for item in ob.packed:
+        span *= item[1]
+    width = span
+    for item in ob.packed:
+        name, radix = item[0], item[1]
+        width //= radix
+        if name in fixed:
+            lo += fixed[name] * width
+            span = width
+        else:
+            break
+    rest = [n for n in fixed if n not in [i[0] for i in ob.packed[:len([1 for i in ob.packed if i[0] in fixed])]]]
+    return lo, lo + span
+
+
+def unpack(ob, sel):
+    vals = []
+    width = 1
+    for item in ob.packed:
+        width *= item[1]
+    for item in ob.packed:
+        width //= item[1]
+        v = (sel // width) % item[1]
+        vals.append(bool(v) if len(item) > 2 and item[2] == 'bool' else v)
+    return vals
+
+
 def _gen_cell(modname, ob, fn, pres, post, raises, ret):
+    if ob.packed:
+        return _gen_cell_packed(modname, ob, fn, pres, post, raises, ret)
     doc = ''.join('    pre: %s\n' % p for p in pres)
     doc += '    post: %s\n' % post
     if raises:
@@ -35,6 +72,47 @@ def _gen_cell(modname, ob, fn, pres, post, raises, ret):
            'def cell(%s) -> %s:\n'
            '    """\n%s    """\n'
            '    return _HM.%s(%s)\n') % (modname, modname, ob.sig, ret, doc, fn, ', '.join(ob.argnames()))
+    return src
+
+
+def _gen_cell_packed(modname, ob, fn, pres, post, raises, ret):
+    # pres: first element may be a dict {selector: value} fixing a prefix; the rest are pre strings over the
+    # non-packed arguments and/or the selector names (which become local ints after decoding - only usable as
+    # extra constraints through `sel` ranges, so selector constraints must be expressed in the dict)
+    fixed = {}
+    strs = []
+    for p in pres:
+        if isinstance(p, dict):
+            fixed.update(p)
+        else:
+            strs.append(p)
+    lo, hi = _packed_range(ob, fixed)
+    doc = '    pre: %d <= sel < %d\n' % (lo, hi) + ''.join('    pre: %s\n' % p for p in strs)
+    doc += '    post: %s\n' % post
+    if raises:
+        doc += '    raises: %s\n' % ', '.join(raises)
+    names = [i[0] for i in ob.packed]
+    width = 1
+    for item in ob.packed:
+        width *= item[1]
+    dec = []
+    for item in ob.packed:
+        width //= item[1]
+        expr = '(sel // %d) %% %d' % (width, item[1])
+        if len(item) > 2 and item[2] == 'bool':
+            expr = '(%s) == 1' % expr
+        dec.append('    %s = %s\n' % (item[0], expr))
+    other = ob.sig.strip()
+    sig = 'sel: int' + (', ' + other if other else '')
+    allargs = names + ob.argnames()
+    src = ('from typing import *\n'
+           'import %s as _HM\n'
+           'from %s import *\n'
+           'from harness.util import R as _R\n\n'
+           'def cell(%s) -> %s:\n'
+           '    """\n%s    """\n'
+           '    sel = _R(sel)\n%s'
+           '    return _HM.%s(%s)\n') % (modname, modname, sig, ret, doc, ''.join(dec), fn, ', '.join(allargs))
     return src
 
 
@@ -78,6 +156,7 @@ def run_obligations(prop, modname, obs, tier='quick', label='E1'):
     n = 0
     for ob in obs:
         kfs = open_findings(prop, ob.name)
+        assert not (kfs and ob.packed), 'known-finding predicates are not supported on packed obligations'
         kfpre = ['not (%s)' % f['predicate'] for f in kfs]
         for (clabel, cpre) in ob.cells:
             n += 1
@@ -110,6 +189,12 @@ def run_obligations(prop, modname, obs, tier='quick', label='E1'):
                 res.twins_ok += 1
                 m = _CALL_RE.search(out.get('message', ''))
                 rec['witness'] = m.group(1)[:200] if m else out.get('message', '')[:200]
+                if m and ob.packed:
+                    try:
+                        head, _, rest = m.group(1).partition(',')
+                        rec['witness'] = ', '.join(repr(v) for v in unpack(ob, int(head.strip()))) + ((',' + rest) if rest.strip() else '')
+                    except ValueError:
+                        pass
             elif st == 'error':
                 res.errors.append(dict(name=ob.name + '/twin', reason=out.get('message', '')[:800]))
             elif st == 'confirmed' or st == 'pre_unsat':
@@ -138,6 +223,15 @@ def run_obligations(prop, modname, obs, tier='quick', label='E1'):
                 res.cells.append(rec)
                 continue
             argsrc = m.group(1)
+            if ob.packed:
+                head, _, rest = argsrc.partition(',')
+                try:
+                    vals = unpack(ob, int(head.strip()))
+                except ValueError:
+                    res.errors.append(dict(name=ob.name, reason='cannot decode packed selector from %r' % argsrc[:100]))
+                    res.cells.append(rec)
+                    continue
+                argsrc = ', '.join(repr(v) for v in vals) + ((',' + rest) if rest.strip() else '')
             rp = replay(modname, ob.fn, ob.post, ob.raises, argsrc, ob.confirm)
             rec['counterexample'] = argsrc[:300]
             rec['replay'] = rp.get('how', '')[:300]
